@@ -155,6 +155,7 @@ var Mutants = map[string][]Mutant{
 		{"Windings looks at the whole path only", "path.go", `\tfor _, pi := range p\.Split\(\) \{\n\t\tzs := pi\.RayIntersections\(x, y\)`, "\tfor _, pi := range []*Path{p} {\n\t\tzs := pi.RayIntersections(x, y)", "E9.subpaths"},
 	},
 	"C07": {
+		{"ReflectX negates a row instead of a column", "util.go", `(func \(m Matrix\) ReflectX\(\) Matrix \{\n)\treturn m\.Scale\(-1\.0, 1\.0\)\n`, "${1}\tm[0][0], m[0][1] = -m[0][0], -m[0][1]\n\treturn m\n", "E11.matrix-composers"},
 		{"Rect.Transform takes two corners when the matrix is diagonal", "util.go", `(func \(r Rect\) Transform\(m Matrix\) Rect \{\n)`, "${1}\tif m[0][1] == 0.0 && m[1][0] == 0.0 {\n\t\tq0 := m.Dot(Point{r.X0, r.Y0})\n\t\tq1 := m.Dot(Point{r.X1, r.Y1})\n\t\treturn Rect{q0.X, q0.Y, q1.X, q1.Y}\n\t}\n", "E3.hull-every-return"},
 		{"ToSVG matrix form written row by row", "util.go", `-dec\(m\[1\]\[0\]\), -dec\(m\[0\]\[1\]\)`, "-dec(m[0][1]), -dec(m[1][0])", "E11.svg-matrix-order"},
 		{"ShearAbout shears first and translates by the sheared pivot offset", "util.go", `return m\.Translate\(x, y\)\.Shear\(sx, sy\)\.Translate\(-x, -y\)`, "return m.Shear(sx, sy).Translate(-sx*y, -sy*x)", "E11.about-is-conjugation"},
@@ -250,6 +251,7 @@ var Mutants = map[string][]Mutant{
 		{"number table larger than the buffer", "path.go", `\t\t'A': 7,\n`, "\t\t'A': 8,\n", "E4.table-bound"},
 	},
 	"C12": {
+		{"two-stop gradients written as one ramp", "renderers/pdf/writer.go", `\} else if len\(stops\) == 1 \{\n\t\treturn patternStopFunction\(stops\[0\], stops\[0\]\)`, "} else if len(stops) <= 2 {\n\t\treturn patternStopFunction(stops[0], stops[len(stops)-1])", "E5.gradient-offsets-used"},
 		{"SVG image moved up by the rectangle's Max.Y", "renderers/svg/svg.go", `(?s)(func \(r \*SVG\) RenderImage\(.*?)m\.Translate\(0(?:\.0)?, float64\(size\.Y\)\)`, "${1}m.Translate(0.0, float64(img.Bounds().Max.Y))", "E11.image-extent-from-size"},
 		{"ToSVG forgets the pen after an arc", "path.go", `(func \(p \*Path\) ToSVG\(\) string \{(?:.*\n)*?\t\t\tlarge, sweep := toArcFlags\(p\.d\[i\+4\]\)\n\t\t\t)x, y = p\.d\[i\+5\], p\.d\[i\+6\]\n`, "${1}", "E2.pen"},
 		{"opacity names remembered for the whole document", "renderers/pdf/writer.go", `(func \(w \*pdfWriter\) NewPage\((?:.*\n)*?\t\tgraphicsStates: )map\[float64\]pdfName\{\},`, "var sharedGS = map[float64]pdfName{}\n\n${1}sharedGS,", "E5.page-memo"},
@@ -335,6 +337,7 @@ var Mutants = map[string][]Mutant{
 		{"rasterizer ignores the fill rule", "renderers/rasterizer/rasterizer.go", `\t\tr\.scanner\.SetWinding\(style\.FillRule != canvas\.EvenOdd\)\n`, ``, "E6.style-field"},
 	},
 	"C15": {
+		{"canvas records the caller's path without a copy", "canvas.go", `(func \(c \*Canvas\) RenderPath\(path \*Path, style Style, m Matrix\) \{\n)\tpath = path\.Copy\(\)\n`, "${1}", "E11.recorded-path-copied"},
 		{"checkDash gets the dashes in stroke widths", "canvas.go", `dashes, ok := path\.checkDash\(dashOffset, dashes\)`, "dashes, ok := path.checkDash(c.Style.DashOffset, style.Dashes)\n\t\t_ = dashOffset", "E11.dash-check-units"},
 		{"Fit restarts the hull with every z-index", "canvas.go", `(?s)(\tfor _, layers := range c\.layers \{\n)(\t\tfor _, l := range layers \{.*?)\t\t\t\tif rect\.Empty\(\) \{\n\t\t\t\t\trect = bounds\n`, "${1}\t\tfirst := true\n${2}\t\t\t\tif first {\n\t\t\t\t\tfirst = false\n\t\t\t\t\trect = bounds\n", "E11.accumulator-restart"},
 		{"Fit takes the image extent from the rectangle's corners", "canvas.go", `size := l\.img\.Bounds\(\)\.Size\(\)\n(\t+)bounds = Rect\{0\.0, 0\.0, float64\(size\.X\), float64\(size\.Y\)\}`, "b := l.img.Bounds()\n${1}bounds = Rect{float64(b.Min.X), float64(b.Min.Y), float64(b.Max.X), float64(b.Max.Y)}", "E11.image-extent-from-size"},
@@ -404,6 +407,7 @@ var Mutants = map[string][]Mutant{
 		{"Linebreak looks at items[b+1] unguarded", "text/linebreak.go", `\(len\(lb\.items\) <= b\+1 \|\| lb\.items\[b\+1\]\.Type != PenaltyType\)`, `lb.items[b+1].Type != PenaltyType`, "E4.neighbour-guard"},
 	},
 	"C18": {
+		{"CIDToGIDMap high byte taken from the code", "renderers/pdf/writer.go", `cidToGIDMap\[j\+0\] = byte\(\(glyphID & 0xFF00\) >> 8\)`, "cidToGIDMap[j+0] = byte((subsetGlyphID & 0xFF00) >> 8)", "E5.cid-to-gid-entries"},
 		{"width table read from the embedded program by code", "renderers/pdf/writer.go", `for subsetGlyphID, glyphID := range glyphIDs \{\n\t\twidths\[subsetGlyphID\] = int\(f\*float64\(font\.SFNT\.GlyphAdvance\(glyphID\)\) \+ 0\.5\)`, "for subsetGlyphID := range glyphIDs {\n\t\twidths[subsetGlyphID] = int(f*float64(sfnt.GlyphAdvance(uint16(subsetGlyphID))) + 0.5)", "E5.width-id-space"},
 		{"WalkSpans swaps the face offsets in vertical modes", "text.go", `callback\(line\.y\+xOffset, -span\.X\+yOffset, span\)`, "callback(line.y-yOffset, -span.X-xOffset, span)", "E11.span-offset-axes"},
 		{"all bfchar entries in one block", "renderers/pdf/writer.go", `block := bfChar\[i:min\(i\+100, len\(bfChar\)\)\]`, "block := bfChar[i:]", "E5.cmap-block-limit"},
